@@ -105,6 +105,8 @@ type Runner struct {
 	res   *RunResult
 	crash *crashRecorder
 	open  bool
+	ack   *AckModel
+	phase string
 }
 
 var errClosure = errors.New("closure failed on purpose")
@@ -197,11 +199,14 @@ func (r *Runner) openDB(cfgIdx int) bool {
 }
 
 func (r *Runner) closeDB() bool {
+	prev := r.phase
+	r.phase = "close"
 	ok := r.guard("close-panic", func() {
 		r.s.APIBegin("close")
 		r.db.Close()
 		r.s.APIEnd()
 	})
+	r.phase = prev
 	r.open = false
 	return ok
 }
@@ -276,6 +281,9 @@ func (r *Runner) runTxn(client int, t *TxnProg) *TxnRec {
 			if t.End == "error" {
 				return errClosure
 			}
+			if t.Mode == "update" {
+				r.ackBegin(client, rec)
+			}
 			return nil
 		}
 		r.s.APIBegin("begin")
@@ -288,8 +296,11 @@ func (r *Runner) runTxn(client int, t *TxnProg) *TxnRec {
 		}
 		rec.EndRet = r.s.Seq()
 		rec.Finished = true
-		r.s.APIEnd()
 		rec.Err = errName(err)
+		if t.Mode == "update" && t.End != "error" {
+			r.ackEnd(client, rec.Err == "")
+		}
+		r.s.APIEnd()
 	default: // rw, ro
 		r.s.APIBegin("begin")
 		rec.BeginCall = r.s.Seq()
@@ -306,7 +317,13 @@ func (r *Runner) runTxn(client int, t *TxnProg) *TxnRec {
 		case "discard":
 			txn.Discard()
 		default:
+			if t.Mode == "rw" {
+				r.ackBegin(client, rec)
+			}
 			rec.Err = errName(txn.Commit())
+			if t.Mode == "rw" {
+				r.ackEnd(client, rec.Err == "")
+			}
 		}
 		rec.EndRet = r.s.Seq()
 		rec.Finished = true
@@ -338,6 +355,42 @@ func (r *Runner) runTxn(client int, t *TxnProg) *TxnRec {
 		}
 	}
 	return rec
+}
+
+// ackBegin registers the write set of a commit that is about to be called.
+func (r *Runner) ackBegin(client int, rec *TxnRec) {
+	if r.ack == nil {
+		return
+	}
+	ws := map[string]mval{}
+	var order []string
+	for _, op := range rec.Ops {
+		if op.Err != "" {
+			continue
+		}
+		switch op.K {
+		case "set":
+			if _, ok := ws[op.Key]; !ok {
+				order = append(order, op.Key)
+			}
+			ws[op.Key] = mval{id: op.Val, pad: op.Pad, present: true}
+		case "del":
+			if _, ok := ws[op.Key]; !ok {
+				order = append(order, op.Key)
+			}
+			ws[op.Key] = mval{}
+		}
+	}
+	r.phase = "commit"
+	r.ack.begin(client, ws, order)
+}
+
+func (r *Runner) ackEnd(client int, committed bool) {
+	if r.ack == nil {
+		return
+	}
+	r.ack.end(client, committed)
+	r.phase = ""
 }
 
 func (r *Runner) drain() {
@@ -379,9 +432,11 @@ func (r *Runner) runClient(ci int) {
 				if a.Gap > 0 {
 					r.s.Sleep(time.Duration(a.Gap))
 				}
+				r.phase = "recovery"
 				if !r.openDB(a.Cfg) {
 					return
 				}
+				r.phase = ""
 				r.hist.Clients[ci] = append(r.hist.Clients[ci], Event{Kind: "restart", Inst: r.inst, Seq: r.s.Seq(), Errs: errs})
 				r.res.Probes["restart"]++
 				// read everything back right after the reopen
@@ -435,14 +490,17 @@ func RunCase(t *testing.T, c *Case, trace bool) *RunResult {
 		opt.Poison = poisonBuf
 	}
 	if c.Crash != nil {
+		r.ack = newAckModel()
 		r.crash = newCrashRecorder(r)
 		opt.OnFS = r.crash.onFS
 	}
 	s := simrt.Run(t, opt, func(s *simrt.Sim) {
 		r.s = s
+		r.phase = "recovery"
 		if !r.openDB(0) {
 			return
 		}
+		r.phase = ""
 		if len(c.Clients) == 1 {
 			r.runClient(0)
 		} else {
